@@ -167,6 +167,7 @@ func (s *Scanner) Length() uint {
 		panic(errs.ErrRuntimeFailure.F())
 	}
 	var length uint
+	foundEndTop := false
 	for {
 		lex, ok := s.Next()
 		if !ok {
@@ -177,6 +178,7 @@ func (s *Scanner) Length() uint {
 			// Found character after the end of the schema and spaces.
 			// Example: char "s" in "{} some text"
 			length = uint(lex.End()) - 1
+			foundEndTop = true
 			break
 		}
 
@@ -184,6 +186,11 @@ func (s *Scanner) Length() uint {
 		if lex.End() == s.dataSize {
 			length--
 		}
+	}
+	if !foundEndTop {
+		// All the data were scanned, so all of them (including the user comments
+		// at the end) belong to the schema.
+		length = uint(s.dataSize)
 	}
 	for ; length > 0; length-- {
 		c := s.data.Byte(length - 1)
